@@ -252,44 +252,7 @@ def _has_quantifier(e):
     return False
 
 
-_sym_cache: dict = {}
-
-
-def symbols(e):
-    k = e.get_id()
-    if k in _sym_cache:
-        return _sym_cache[k]
-    out, todo, seen = set(), [e], set()
-    while todo:
-        x = todo.pop()
-        i = x.get_id()
-        if i in seen:
-            continue
-        seen.add(i)
-        if z3.is_quantifier(x):
-            todo.append(x.body())
-            continue
-        if z3.is_app(x) and x.decl().kind() == z3.Z3_OP_UNINTERPRETED:
-            out.add(x.decl().name())
-        todo.extend(x.children())
-    _sym_cache[k] = out
-    return out
-
-
-def relevant(assumptions, goal, rounds):
-    cur = set(symbols(goal))
-    keep = [False] * len(assumptions)
-    syms = [symbols(a) for a in assumptions]
-    for _ in range(rounds):
-        new = set()
-        for i, sy in enumerate(syms):
-            if not keep[i] and (sy & cur or not sy):
-                keep[i] = True
-                new |= sy
-        if not new - cur:
-            break
-        cur |= new
-    return [a for a, k in zip(assumptions, keep) if k]
+from .rel import relevant, symbols  # noqa: E402,F401
 
 
 _len_cache: dict = {}
@@ -298,7 +261,7 @@ _len_cache: dict = {}
 def _collect_lens(e, out):
     k = e.get_id()
     if k in _len_cache:
-        out |= _len_cache[k]
+        out |= _len_cache[k][1]
         return
     mine = set()
     todo, seen = [e], set()
@@ -316,7 +279,7 @@ def _collect_lens(e, out):
             if "#len" in nm or "#s0" in nm or "#s1" in nm or "#s2" in nm or "#s3" in nm:
                 mine.add(nm)
         todo.extend(x.children())
-    _len_cache[k] = mine
+    _len_cache[k] = (e, mine)
     out |= mine
 
 
